@@ -172,6 +172,14 @@ impl Recv {
         // out of `ReservedRemote`. As a result, `recv_open` reports each of them
         // as initial. Only account for the stream once.
         if is_initial && !stream.is_counted {
+            // A pushed stream only starts to count when its response HEADERS
+            // arrive; several promises can be outstanding at once, so the
+            // limit has to be checked again here.
+            if !counts.can_inc_num_recv_streams() {
+                proto_err!(stream: "recv_headers: pushed stream exceeds the concurrency limit; stream={:?}", stream.id);
+                return Err(Error::library_reset(stream.id, Reason::REFUSED_STREAM).into());
+            }
+
             // TODO: be smarter about this logic
             if frame.stream_id() > self.last_processed_id {
                 self.last_processed_id = frame.stream_id();
